@@ -46,6 +46,7 @@ func fixtures(tier string) []fx {
 		{"base1e9-mgp1e9-m1", false, 1000000000, "1000000000", "1"},
 		{"base7-mgp0-m0.5", false, 7, "0", "0.5"},
 		{"base1e9-mgp1.5-m0.5", false, 1000000000, "1.5", "0.5"},
+		{"nobase-mgp12.25-m0.5", true, 0, "12.25", "0.5"},
 	}
 	if tier == "thorough" {
 		out = append(out, fx{"base1e9-mgp2e9-m0.5", false, 1000000000, "2000000000", "0.5"},
@@ -328,7 +329,10 @@ func (x *world7) run(res *engine.Result, tier string, shard, n int, idx *int) {
 	// ---- Cosmos transactions
 	for _, kind := range []string{"cosmos", "cosmos-dynfee"} {
 		for _, gas := range []uint64{100000, 200001} {
-			for _, price := range prices {
+			// beside the price grid: the exact floor ceil(gas x minGasPrice) and its neighbours (for a
+			// fractional minimum gas price no integer price x gas lands there)
+			pricesC := append(append([]*big.Int{}, prices...), nil)
+			for _, price := range pricesC {
 				for _, adj := range []int64{0, -1, 1} { // fee = price*gas + adj: probes the ceil() of the floor
 					tipsC := []*big.Int{nil}
 					if kind == "cosmos-dynfee" {
@@ -339,7 +343,12 @@ func (x *world7) run(res *engine.Result, tier string, shard, n int, idx *int) {
 						if *idx%n != shard {
 							continue
 						}
-						fee := new(big.Int).Mul(price, new(big.Int).SetUint64(gas))
+						var fee *big.Int
+						if price == nil {
+							fee = ceilMul(mgp, gas)
+						} else {
+							fee = new(big.Int).Mul(price, new(big.Int).SetUint64(gas))
+						}
 						fee.Add(fee, big.NewInt(adj))
 						if fee.Sign() < 0 {
 							continue
